@@ -214,7 +214,8 @@ class WorkerComms:
         """
         self._task_idx = 0
         self._last_completed_task_worker_id.clear()
-        self._tasks_completed_array[:] = [0] * self.n_jobs
+        if self._tasks_completed_array is not None:
+            self._tasks_completed_array[:] = [0] * self.n_jobs
         self.clear_progress_bar_shutdown()
         self.clear_progress_bar_complete()
 
